@@ -35,9 +35,16 @@ def run_case(item):
     d = tempfile.mkdtemp(prefix="allmut.")
     try:
         subprocess.run(["rsync", "-a", "--exclude", ".git", repo.rstrip("/") + "/", d + "/"], check=True)
-        p = subprocess.run(["patch", "-p1", "-s", "--no-backup-if-mismatch", "-i", os.path.join(verif, "mutants", name + ".patch")], cwd=d, capture_output=True, text=True)
-        if p.returncode != 0:
-            return name, m, "skipped", "patch does not apply to the tree under test"
+        if m.get("generator"):
+            # generated variant: the analyzer's own source transformer (every local variable / parameter renamed)
+            genv = dict(env, ALLIANCECHECK_NOINLINE="1")
+            p = subprocess.run([binp, "-repo", d, "-verif", verif, "-dump", m["generator"]], capture_output=True, text=True, env=genv)
+            if p.returncode != 0 or "renamed" not in p.stdout:
+                return name, m, "skipped", "generator failed on the tree under test"
+        else:
+            p = subprocess.run(["patch", "-p1", "-s", "--no-backup-if-mismatch", "-i", os.path.join(verif, "mutants", name + ".patch")], cwd=d, capture_output=True, text=True)
+            if p.returncode != 0:
+                return name, m, "skipped", "patch does not apply to the tree under test"
         try:
             r = subprocess.run([binp, "-repo", d, "-verif", verif, "-property", pid, "-no-evidence"], capture_output=True, text=True, env=env, timeout=400)
         except subprocess.TimeoutExpired:
